@@ -26,6 +26,9 @@
 (*   "BomPerWrite"    each write is encoded on its own by a stateless      *)
 (*                    encoder, so a codec with a signature (utf-16) puts a *)
 (*                    byte-order mark in front of every write              *)
+(*   "EmptyCodecDeclared"  with codec "" (the other spelling of "no codec"  *)
+(*                    on a text sink) the XML declaration carries          *)
+(*                    encoding="" (a seeded change)                        *)
 (*   "TextSinkCodecFilter"  TextConverter drops, also on a TEXT sink, the  *)
 (*                    characters its `codec` argument cannot express (a    *)
 (*                    seeded change; the text sink takes characters)       *)
@@ -95,7 +98,7 @@ AStart == /\ phase = "build" /\ CanClose
           /\ imgw' \in (IF conv' = "xml" /\ HasImage THEN BOOLEAN ELSE {FALSE})
           \* TextConverter takes any `codec` together with a text sink (XMLConverter insists on none)
           \* (the codec dimensions are explored in the configs with ShiftSinks; elsewhere the default utf-8 is passed)
-          /\ tc' \in (IF conv' # "text" THEN {tNONE} ELSE IF ShiftSinks THEN TextSinkCodecs ELSE {tUTF8})
+          /\ tc' \in (IF conv' # "text" THEN (IF ShiftSinks THEN NoCodecSpellings ELSE {tNONE}) ELSE IF ShiftSinks THEN TextSinkCodecs ELSE {tUTF8})
           /\ sub' = (IF conv' = "xml" THEN 3 ELSE 0)
           /\ UNCHANGED <<T, hs, stack, chars, u8, u16, l1, xs, nw, px>>
 
@@ -127,7 +130,7 @@ Descend == IF i > N THEN FALSE ELSE IF stack = <<>> THEN TRUE ELSE T[i].d > T[To
 \* sub: 3 = XML declaration pending, 1 = root element pending, 2 = glyph text pending, 0 = rendering
 \* write_header: the declaration names the codec on a binary sink and has no encoding pseudo-attribute on a text sink
 ABegin == /\ phase = "run" /\ sub = 3
-          /\ sub' = 1 /\ Write2(XmlHeader(FALSE), XmlHeader(TRUE))
+          /\ sub' = 1 /\ Write2(IF tc = tEMPTY /\ "EmptyCodecDeclared" \in dev THEN XmlHeaderEmptyEncoding ELSE XmlHeader(FALSE), XmlHeader(TRUE))
           /\ UNCHANGED <<T, hs, phase, conv, strip, imgw, tc, dev, i, stack, px>>
 ABegin2 == /\ phase = "run" /\ sub = 1
            /\ sub' = 0 /\ Write(XmlRootOpen)
